@@ -283,6 +283,82 @@ def run_modes(ctx, rulekind, exckind, via, debug):
         _setup_logging(False)
 
 
+def run_reconfigured(ctx, via, by):
+    """One long-lived enforcer, a scoped policy, mis-scoped credentials; the
+    operator changes [oslo_policy] enforce_scope between requests.  In every
+    phase the two modes agree with each other (falsy return <=> raise) and
+    with the setting in force at that moment."""
+    from oslo_policy import _parser, policy
+    common.set_ctx(ctx)
+    common.register_leaves()
+    env = common.PolicyEnv()
+    try:
+        enf = env.enforcer(defaults=[policy.RuleDefault(
+            'p', 'sym:a', scope_types=['system'])], enforce_scope=False)
+        if by == 'object':
+            arg = _parser.parse_rule('sym:a')
+            arg.scope_types = ['system']
+        else:
+            arg = 'p'
+        if via == 'authorize' and by == 'object':
+            return
+        fn = enf.enforce if via == 'enforce' else enf.authorize
+        creds = {'roles': ['m'], 'project_id': 'p1'}      # project scoped
+        trace = []
+        for i in range(3):
+            es = bool(ctx.bool('enforce_scope%d' % i))
+            enf.conf.set_override('enforce_scope', es, group='oslo_policy')
+            order = str(ctx.choice('order%d' % i, ['off-on', 'on-off']))
+            trace.append([es, order])
+
+            def call(do_raise):
+                try:
+                    return ('ret', bool(fn(arg, {}, dict(creds), do_raise)))
+                except policy.InvalidScope:
+                    return ('InvalidScope', True)
+                except policy.PolicyNotAuthorized:
+                    return ('PolicyNotAuthorized', True)
+            if order == 'off-on':
+                off = ctx.summarize(lambda: call(False))
+                on = ctx.summarize(lambda: call(True))
+            else:
+                on = ctx.summarize(lambda: call(True))
+                off = ctx.summarize(lambda: call(False))
+            a = _leaf('a')
+            is_ = lambda v: (lambda k, x: k == 'ret' and tuple(x) == v)  # noqa
+            tr = list(trace)
+
+            def req(cond, label, off=off, on=on, tr=tr):
+                ctx.require(mkbool(cond), label, detail=lambda m: {
+                    'via': via, 'by': by, 'phases': tr,
+                    'off': off.describe(m), 'on': on.describe(m)})
+            req(z3.Not(z3.Or(off.raises(), on.raises())),
+                'reconfigured:undocumented-exception')
+            if es:
+                req(off.where(is_(('ret', False))),
+                    'reconfigured:mismatch-must-deny')
+                req(on.where(is_(('InvalidScope', True))),
+                    'reconfigured:mismatch-must-raise-InvalidScope')
+            else:
+                req(off.where(is_(('ret', True))) == a,
+                    'reconfigured:decision')
+                req(off.where(is_(('ret', False))) == z3.Not(a),
+                    'reconfigured:decision')
+                req(on.where(is_(('ret', True))) == a,
+                    'reconfigured:decision-do_raise')
+                req(on.where(is_(('PolicyNotAuthorized', True))) ==
+                    z3.Not(a), 'reconfigured:deny-raises')
+        ctx.observe('phases', trace)
+        ctx.cover('reconfigured:' + via)
+    finally:
+        env.close()
+
+
+def cubes_reconfigured(tier, seed):
+    return [{'via': v, 'by': b} for v in ('enforce', 'authorize')
+            for b in ('name', 'object')]
+
+
 def cubes_modes(tier, seed):
     out = []
     for rk in RULEKINDS:
@@ -430,9 +506,11 @@ HARNESSES = {
     'modes': {'fn': run_modes, 'cubes': cubes_modes},
     'debug': {'fn': run_debug_equiv, 'cubes': cubes_debug},
     'reuse': {'fn': run_reuse, 'cubes': cubes_reuse},
+    'reconfigured': {'fn': run_reconfigured, 'cubes': cubes_reconfigured},
 }
 REQUIRED_COVER = ['modes:' + r for r in RULEKINDS] + [
-    'modes:scope-mismatch', 'debug-equiv', 'reuse:context']
+    'modes:scope-mismatch', 'debug-equiv', 'reuse:context',
+                  'reconfigured:enforce', 'reconfigured:authorize']
 
 
 def evidence(tier):
